@@ -8,6 +8,11 @@ def units():
     return c_ignore.UNITS + [c_core_geometry.has_ignore_comment] + c_core_range.UNITS + sched
 
 
+def extra(tier, seed):
+    from pyvc.tables import run_gen
+    return [run_gen("processing.direct-edits/ignored-lines", ("C20",), c_ignore.gen_direct_edit_representatives, tier == "thorough")]
+
+
 def standins(tier, seed):
     return c20_ignore.run(tier, seed)
 
